@@ -77,14 +77,24 @@ def run_harnesses(names, repo, tier, timeout=None):
             out = ((e.stdout or b'').decode() if isinstance(e.stdout, bytes) else (e.stdout or '')) + '\nTIMEOUT'
             timed_out = True
         wall = time.time() - t0
-        # split per harness
-        blocks = re.split(r'Checking harness ', out)
+        # split per harness (with -j the terse output is prefixed by `Thread k:`)
         per = {}
-        for b in blocks[1:]:
-            m = re.match(r'([\w:]+)\.\.\.', b)
-            if not m:
+        cur = {}       # thread -> harness name
+        active = None  # thread whose block we are reading
+        for ln in out.split('\n'):
+            m = re.match(r'(?:Thread (\d+): )?Checking harness ([\w:]+)\.\.\.', ln)
+            if m:
+                t = m.group(1) or '0'
+                cur[t] = m.group(2).split('::')[-1]
+                per.setdefault(cur[t], '')
+                active = t
                 continue
-            per[m.group(1).split('::')[-1]] = b
+            m = re.match(r'Thread (\d+):\s*(.*)$', ln)
+            if m:
+                active = m.group(1)
+                ln = m.group(2)
+            if active is not None and active in cur:
+                per[cur[active]] += ln + '\n'
         compile_err = None
         if not per and not timed_out:
             compile_err = out[-2500:]
